@@ -42,13 +42,15 @@ func (cache *H264Cache) CachePack(pack Pack) bool {
 	cache.l.Lock()
 	defer cache.l.Unlock()
 
-	if sps { // 新序列参数,重置图像参数和 GopCache
+	if sps { // 新序列参数
 		cache.sps = rtppack
-		return false
 	}
 
-	if pps { // 新图像参数，重置 GopCahce
+	if pps { // 新图像参数（聚合包可能同时携带 SPS 和 PPS）
 		cache.pps = rtppack
+	}
+
+	if (sps || pps) && !islice { // 仅含参数集的包不进入 GopCache
 		return false
 	}
 
@@ -79,12 +81,18 @@ func (cache *H264Cache) PushTo(q *queue.SyncQueue) int {
 	cache.l.RLock()
 	defer cache.l.RUnlock()
 
+	// 关键帧与参数集聚合在同一个包时，该包已是 GopCache 的首包，不重复发送
+	var first interface{}
+	if cache.cacheGop && cache.gop.Len() > 0 {
+		first = cache.gop.Get(0)
+	}
+
 	// 写参数包
-	if cache.sps != nil {
+	if cache.sps != nil && first != cache.sps {
 		q.Queue().Push(cache.sps)
 		bytes += cache.sps.Size()
 	}
-	if cache.pps != nil {
+	if cache.pps != nil && cache.pps != cache.sps && first != cache.pps {
 		q.Queue().Push(cache.pps)
 		bytes += cache.pps.Size()
 	}
